@@ -21,7 +21,7 @@ from __future__ import annotations
 import random
 import ssl
 
-from ..collect import sig_of
+from ..collect import guarded, sig_of
 from ..loops import BusyLoop, Deadlock, run
 
 PROPERTY = "C17"
@@ -504,13 +504,13 @@ def shards(tier: str, seed: int) -> list[dict]:
 def run_shard(desc: dict, col) -> None:  # noqa: ANN001
     for i, case in enumerate(all_cases(desc["tier"], desc["seed"])):
         if i % desc["of"] == desc["shard"]:
-            judge(case, col)
+            guarded(col, case, judge, case, col)
             if col.violation_count >= 8:
                 break
 
 
 def replay(case: dict, col) -> None:  # noqa: ANN001
-    judge(case, col)
+    guarded(col, case, judge, case, col)
 
 
 def finish(col, tier: str) -> None:  # noqa: ANN001
